@@ -1,9 +1,16 @@
 #!/bin/bash
-# usage: try_seed.sh <seed-name> <ID> [tier]   - applies seeded/<name>/patch.diff to /repo, runs the check, reverts.
+# usage: try_seed.sh <seed-name> <ID> [tier]
+# Runs the check of property <ID> against a scratch worktree of /repo HEAD with seeded/<name>/patch.diff applied (VERIF_REPO points the
+# build at it); /repo itself is never touched. The worktree is removed afterwards.
 V=$(cd "$(dirname "$0")/.." && pwd)
 NAME=$1; ID=$2; TIER=${3:-quick}
-git -C /repo diff --quiet || { echo "/repo not clean"; exit 2; }
-git -C /repo apply "$V/seeded/$NAME/patch.diff" || { echo "patch does not apply"; exit 2; }
-( cd "$V" && ./check $ID --tier $TIER 2>&1 | tail -${LINES_OUT:-6} ); rc=${PIPESTATUS[0]}
-git -C /repo checkout -- . 
+WT=/tmp/wt/try-$NAME-$$
+git -C /repo worktree add -q --detach "$WT" HEAD || exit 2
+if ! git -C "$WT" apply "$V/seeded/$NAME/patch.diff"; then echo "patch does not apply"; git -C /repo worktree remove --force "$WT"; exit 2; fi
+( cd "$V" && VERIF_REPO="$WT" ./check $ID --tier $TIER > /tmp/try_$NAME_$ID.out 2>&1; echo $? > /tmp/try_$NAME_$ID.rc )
+rc=$(cat /tmp/try_$NAME_$ID.rc)
+grep -E "VIOLATION|KNOWN-FINDING|INCONCLUSIVE|HARNESS|^\[C" /tmp/try_$NAME_$ID.out | cut -c1-${WIDTH:-300} | head -${LINES_OUT:-6}
+git -C /repo worktree remove --force "$WT"
+rm -rf "$V"/.build/*-tmp* 2>/dev/null
 echo "try_seed $NAME on $ID: rc=$rc"
+exit $rc
